@@ -1389,3 +1389,12 @@ Proof.
   intros Hi. rewrite (gzip_serve_i_same dexts cs cfgs path ae s Hi), (run_plain_i_same s Hi).
   apply labelled_iff_encoded.
 Qed.
+
+(* a sibling IS served when one of the table's codings is listed plainly and its file exists *)
+Lemma sibling_served_when_offered prio ae avail n e :
+  In (n, e) prio -> accepted ae n = true -> avail e = true ->
+  exists n' e', select_sibling prio ae avail = Some (n', e').
+Proof.
+  intros Hin Ha Hv. destruct (select_sibling prio ae avail) as [[n' e']|] eqn:E; [exists n', e'; reflexivity|].
+  destruct (select_sibling_none _ _ _ E n e Hin) as [H | H]; congruence.
+Qed.
